@@ -3,7 +3,7 @@ from __future__ import annotations
 
 import numpy as np
 
-from .. import build, cppdrv, gen, monitors, oracle as O
+from .. import build, cppdrv, gen, monitors, oracle as O, probes
 from . import common as K
 
 ID = "C02"
@@ -28,7 +28,8 @@ N_POINTS = 4
 
 
 def plan(tier, seed):
-    return [{"uid": f"p{i}", "i": i} for i in range(N[tier])]
+    units = [{"uid": f"probe{i}", "kind": "probe", "i": i} for i in range(1 if tier == "quick" else 8)]
+    return units + [{"uid": f"p{i}", "i": i} for i in range(N[tier])]
 
 
 def unit_timeout(tier):
@@ -83,7 +84,49 @@ def compare_outputs(R, eb, defn, orc, pt, toks_f, sensor_toks, what):
     return vs
 
 
+def run_probe(unit, ctx):
+    """Exp-overflow region (known finding cse-simplify:exp-overflow) in generated C++."""
+    R = K.Result()
+    rng = K.unit_rng(ID, ctx["seed"], unit)
+    if unit["i"] == 0:
+        defn, pts = probes.witness_defn(), probes.witness_points()
+    else:
+        defn = probes.random_probe_defn(rng)
+        pts = [probes.probe_point(rng, defn) for _ in range(8)]
+    orc = O.Oracle(defn)
+    outs = {}
+    for cse in (True, False):
+        eb = cppdrv.EkfBinary(defn, build.Built(defn), {"common_subexpression_elimination": cse})
+        try:
+            if not eb.ok:
+                R.add([K.V("cpp:does-not-compile:ekf", f"generated code does not compile (probe, cse={cse}): {eb.compile_err[-1200:]}", defn=defn)])
+                return R.out()
+            cmds = [eb.cal_cmd(defn["calibration_map"])]
+            for pt in pts:
+                cmds.append(eb.f_cmd(pt["dt"], {s: pt[s] for s in defn["state"]}, {c: pt[c] for c in defn["control"]}))
+            res = eb.run(cmds)
+            if res["sanitizer"] or res["rc"] != 0 or not res["lines"] or res["lines"][-1] != ["DONE"]:
+                R.add([K.V("cpp:sanitizer-or-crash", f"probe driver rc={res['rc']}: {res['err'][-1200:]}", defn=defn)])
+                return R.out()
+            outs[cse] = [eb.parse_f(t)[0] for t in res["lines"][1:-1]]
+        finally:
+            eb.close()
+    for pi, pt in enumerate(pts):
+        env = orc.env(pt)
+        R.evals += 1
+        for s, (rv, sc) in orc.model(env).items():
+            verdict, txt = probes.classify(defn, env, outs[True][pi][s], outs[False][pi][s], rv, sc)
+            R.stats.inc(f"probe_{verdict}")
+            if verdict == "known":
+                R.add([K.V(probes.KEY, f"ProcessModel::model[{s}]: {txt}", defn=defn, point=pt)])
+            elif verdict == "violation":
+                R.add([K.V("cpp:model", f"ProcessModel::model[{s}] (probe region): {txt}", defn=defn, point=pt)])
+    return R.out()
+
+
 def run_unit(unit, ctx):
+    if unit.get("kind") == "probe":
+        return run_probe(unit, ctx)
     R = K.Result()
     rng = K.unit_rng(ID, ctx["seed"], unit)
     i = unit["i"]
